@@ -526,3 +526,13 @@ Proof.
       subst f'. rewrite F in F'. inversion F'; subst fd' n'. split; [|reflexivity].
       apply member_shape in M'. rewrite Sh in M'. inversion M'. reflexivity.
 Qed.
+
+(* ================================================================== why api_names_shapeb asks for "first enum value = 0" *)
+(* The getter's default is the enum's first value (fieldDefaultValue); Reflect.v's zero of an enum is 0 (proto3: protodesc rejects an
+   enum whose first value is not 0). With a naming context that claims 1: the getter on the nil receiver returns 1, Get returns 0. *)
+Example first_enum_value_needed :
+  let sch : schema := [ {| m_fields := [ {| f_num := 1; f_ty := TScalar KEnum; f_shape := Singular |} ]; m_oneofs := 0; m_impl := Pulsar |} ] in
+  let nm := mkMNames [] [ mkFNames [] [] [] [] [] [] true 1 ] [] [] [] [] in
+  run_getter sch (canon_prog sch 0 nm) [] 0 None 0 = Some (AVScalar (VInt 1)) /\
+  snd (step sch [] (OGet (PMsg 0 None) 0)) = PScalar (VInt 0).
+Proof. vm_compute. split; reflexivity. Qed.
